@@ -277,6 +277,27 @@ func TestEnumerated(t *testing.T) {
 			}
 		}
 	}
+	// suites without session integrity (None): the RAKP 4 integrity check value
+	// belongs to the authentication algorithm and must be checked all the same
+	for _, auth := range []uint8{ref.AuthSHA1, ref.AuthMD5, ref.AuthSHA256} {
+		seed = seed*6364136223846793005 + 1442695040888963407
+		c := hx.Creds{Suite: ref.Suite{Auth: auth, Integ: ref.IntegNone, Conf: ref.ConfAES}, Priv: uint8(seed>>8) % 6, Lookup: seed>>16&1 == 1, Seed: seed}
+		c.User = []string{"", "a", "admin", "sixteen-byte-usr"}[(seed>>24)%4]
+		c.Password = []byte(fmt.Sprintf("pw-%x", seed))[:1+(seed>>28)%19]
+		if (seed>>32)&1 == 1 {
+			c.KG = []byte(fmt.Sprintf("%020x", seed))[:20]
+		}
+		for _, m := range enumerate(auth) {
+			if m.Step != "rakp4" && m.Kind != "kg" && m.Kind != "password" {
+				continue
+			}
+			if msg := judge(c, m); msg != "" {
+				ev.Violation("TestEnumerated", map[string]any{"creds": c, "mutation": m}, msg)
+				t.Fatalf("creds %+v mutation %v: %s", c, m, msg)
+			}
+		}
+		ev.Label(fmt.Sprintf("auth%d:integrity-none", auth))
+	}
 	ev.Label("enumeration-complete")
 }
 
@@ -317,7 +338,7 @@ func TestRelatedPasswords(t *testing.T) {
 // nothing proven by an earlier login may stand in for proof in a later one.
 func TestLoginSequences(t *testing.T) {
 	ev.Check(t, "TestLoginSequences", ev.PickN(800, 80000), func(t *rapid.T) {
-		c := hx.GenCreds(hx.Suites9()).Draw(t, "creds")
+		c := hx.GenCreds(hx.Suites12()).Draw(t, "creds")
 		if len(c.Password) == 0 {
 			c.Password = []byte{0x31}
 		}
@@ -396,7 +417,7 @@ func TestLoginSequences(t *testing.T) {
 
 func TestRandom(t *testing.T) {
 	ev.Check(t, "TestRandom", ev.PickN(1500, 600000), func(t *rapid.T) {
-		c := hx.GenCreds(hx.Suites9()).Draw(t, "creds")
+		c := hx.GenCreds(hx.Suites12()).Draw(t, "creds")
 		pl := payloadLens(c.Suite.Auth)
 		m := Mutation{Kind: rapid.SampledFrom([]string{"password", "kg", "pwprefix", "pwextend", "pwbyte", "flip", "flip", "flip", "status", "statusShort", "tag", "cutPayload", "cutRaw"}).Draw(t, "kind")}
 		m.Step = rapid.SampledFrom([]string{"open", "rakp2", "rakp4"}).Draw(t, "step")
@@ -429,6 +450,7 @@ func TestCoverage(t *testing.T) {
 		}
 	}
 	for _, a := range []int{1, 2, 3} {
+		need = append(need, fmt.Sprintf("auth%d:integrity-none", a))
 		for n := 17; n <= 20; n++ {
 			need = append(need, fmt.Sprintf("auth%d:pwprefix16-of-%d", a, n))
 		}
